@@ -719,6 +719,11 @@ def run_bins(case):
         bad.append(('binning-value', '%s-binning by the per-axis factors %r differs from the brute-force bins' % (stat, ss)))
     lines.append('C18 bins %s %s %s %s' % (stat, '[' + ','.join(str(f) for f in ss[::-1]) + ']', '[' + ','.join(str(d) for d in dims[::-1]) + ']', rat_list(case['vals'])))
     cmps.append(('bins', [float(x) for x in out], {}))
+    if stat == 'sum':
+        # the closed form of the index map (`boxSums`, theorem bins_pixel), every coarse pixel
+        lines.append('C18 binpix %s %s %s' % ('[' + ','.join(str(f) for f in ss[::-1]) + ']', '[' + ','.join(str(d) for d in dims[::-1]) + ']', rat_list(case['vals'])))
+        cmps.append(('binpix', [float(x) for x in out], {}))
+        info['binpix'] = 1
     return bad, lines, cmps, info
 
 
@@ -794,6 +799,7 @@ def run_bin(case):
                 bad.append(('binning-tensor-dependent', 'component %d binned alone differs from the same component of the binned tensor field' % k))
                 break
     cd = '[' + ','.join(str(d) for d in dims[::-1]) + ']'
+    npix = 0
     if weighted:
         for k in range(ncomp):
             lines.append('C18 binw %d %s %s %s' % (s, cd, rat_list(comps_in[k]), rat_list([float(x) for x in w])))
@@ -805,7 +811,11 @@ def run_bin(case):
         for k in range(ncomp):
             lines.append('C18 bin %s %d %s %s' % (stat, s, cd, rat_list(comps_in[k])))
             cmps.append(('bin', [float(x) for x in comps_out[k]], {}))
-    return bad, lines, cmps, {'weighted': weighted, 'ncomp': ncomp}
+            if stat == 'sum':
+                lines.append('C18 binpix %s %s %s' % ('[' + ','.join([str(s)] * nd) + ']', cd, rat_list(comps_in[k])))
+                cmps.append(('binpix', [float(x) for x in comps_out[k]], {}))
+                npix += 1
+    return bad, lines, cmps, {'weighted': weighted, 'ncomp': ncomp, 'binpix': npix}
 
 
 def run_ss(case):
@@ -1333,6 +1343,7 @@ def check_case(ctx, case, all_lines, index):
         ctx.count('bins:spelling:' + case['spell'])
         ctx.count('bins:' + ('uniform-factors' if len(set(case['ss'])) == 1 else 'different-factors'))
         ctx.count('bins:stat:' + case['stat'])
+        ctx.count('binpix:images', info.get('binpix', 0))
         sig = (fam, tuple(case['dims']), tuple(case['ss']), case['spell'], case['stat'])
     elif fam == 'bin':
         ctx.count('bin:ndim=%d' % len(case['dims']))
@@ -1340,6 +1351,7 @@ def check_case(ctx, case, all_lines, index):
         ctx.count('bin:dirs:' + (''.join('d' if d < 0 else 'u' for d in case['delta']) if case['regular'] else dirs_of(case['axes'])))
         ctx.count('bin:stat:' + case['stat'])
         ctx.count('bin:tensor_shape:%s' % (case['tshape'],))
+        ctx.count('binpix:images', info.get('binpix', 0))
         ctx.count('bin:' + ('regular' if case['regular'] else 'separated-weighted' if case['stat'] == 'mean' else 'separated'))
         sig = (fam, tuple(case['dims']), case['s'], tuple(case['tshape']), case['stat'], case['regular'])
     elif fam == 'scale':
